@@ -42,7 +42,7 @@ fn outcome<T>(r: &VfsResult<T>) -> Result<(), EC> { match r { Ok(_) => Ok(()), E
 #[derive(Clone, Copy, Debug, PartialEq)]
 enum Op { CreateDir, CreateFile, Append, RemoveFile, RemoveDir, CreateDirAll, RemoveDirAll, MoveTo, CopyTo, CopyDirTo, MoveDirTo }
 const DEST: &str = "/mv";
-const UNIVERSE: [&str; 9] = ["", "/a", "/ab", "/a/b", "/a/b/c", "/é", "/é/x", "/.h", "/mv"];
+const UNIVERSE: [&str; 11] = ["", "/a", "/ab", "/a/b", "/a/b/c", "/a/a", "/é", "/é/x", "/.h", "/mv", "/r"];
 
 fn sync_apply(root: &VfsPath, op: Op, p: &str) -> VfsResult<()> {
     let q = root.join(&p[1..])?;
@@ -216,6 +216,9 @@ fn oracle_reader(depth: usize) -> bool {
                         ROp::Seek(s) => { let (x, y) = (hs.seek(*s).ok(), ha.seek(*s).await.ok()); tr(&format!("s {:?} {:?}", s, y)); if x != y { return Some(format!("step {} {:?}: sync {:?}, async {:?}", i, op, x, y)); } }
                     }
                 }
+                // where the cursors stand after the script
+                let (x, y) = (hs.seek(SeekFrom::Current(0)).ok(), ha.seek(SeekFrom::Current(0)).await.ok()); tr(&format!("end {:?}", y));
+                if x != y { return Some(format!("after the script the cursor stands at: sync {:?}, async {:?}", x, y)); }
                 None
             })));
             let what = format!("content={:?} script={:?}", content, script);
@@ -394,6 +397,49 @@ fn oracle_hostile() -> bool {
 #[cfg(not(unix))]
 fn oracle_hostile() -> bool { true }
 
+/// write handles that overlap or outlive their file (memory, altroot, overlay): the async tree ends up like the sync tree
+fn oracle_handles() -> bool {
+    let mut r = Report::new("handles");
+    let rt = rt();
+    for kind in ["memory", "altroot", "overlay"] {
+        for scenario in 0..5 {
+            r.case();
+            let pair = make_pair(kind);
+            let res = catch_unwind(AssertUnwindSafe(|| rt.block_on(async {
+                let (fs_, fa) = (pair.s.join("f").unwrap(), pair.a.join("f").unwrap());
+                fs_.create_file().unwrap().write_all(b"abc").unwrap(); fa.create_file().await.unwrap().write_all(b"abc").await.unwrap();
+                match scenario {
+                    0 => { // an idle handle dropped after another handle wrote
+                        let hs = fs_.create_file().unwrap(); let mut gs = fs_.create_file().unwrap(); gs.write_all(b"late").unwrap(); drop(gs); drop(hs);
+                        let ha = fa.create_file().await.unwrap(); let mut ga = fa.create_file().await.unwrap(); ga.write_all(b"late").await.unwrap(); drop(ga); drop(ha); }
+                    1 => { // an idle handle dropped after the file was removed
+                        let hs = fs_.create_file().unwrap(); fs_.remove_file().unwrap(); drop(hs);
+                        let ha = fa.create_file().await.unwrap(); fa.remove_file().await.unwrap(); drop(ha); }
+                    2 => { // a handle with data dropped after the file was removed
+                        let mut hs = fs_.append_file().unwrap(); hs.write_all(b"d").unwrap(); fs_.remove_file().unwrap(); drop(hs);
+                        let mut ha = fa.append_file().await.unwrap(); ha.write_all(b"d").await.unwrap(); fa.remove_file().await.unwrap(); drop(ha); }
+                    3 => { // flush, foreign write, flush again
+                        let mut hs = fs_.create_file().unwrap(); hs.write_all(b"AAA").unwrap(); hs.flush().unwrap(); fs_.create_file().unwrap().write_all(b"zz").unwrap(); hs.flush().unwrap();
+                        let mut ha = fa.create_file().await.unwrap(); ha.write_all(b"AAA").await.unwrap(); ha.flush().await.unwrap(); fa.create_file().await.unwrap().write_all(b"zz").await.unwrap(); ha.flush().await.unwrap();
+                        let (x, y) = (fs_.read_to_string().ok(), fa.read_to_string().await.ok()); tr(&format!("mid {:?}", y));
+                        if x != y { return Some(format!("after the repeated flush: sync {:?}, async {:?}", x, y)); } }
+                    _ => { // two append handles
+                        let hs1 = fs_.append_file().unwrap(); let mut hs2 = fs_.append_file().unwrap(); hs2.write_all(b"2").unwrap(); drop(hs2); drop(hs1);
+                        let ha1 = fa.append_file().await.unwrap(); let mut ha2 = fa.append_file().await.unwrap(); ha2.write_all(b"2").await.unwrap(); drop(ha2); drop(ha1); }
+                }
+                for p in ["", "/f"] {
+                    let (x, y) = (sync_obs(&pair.s, p), async_obs(&pair.a, p).await); tr(&format!("{} {:?}", p, y));
+                    if x != y { return Some(format!("afterwards at {:?}: sync {:?}, async {:?}", p, x, y)); }
+                }
+                None
+            })));
+            let what = format!("backend={} scenario={}", kind, scenario);
+            match res { Err(_) => r.fail(what, "panicked".into()), Ok(Some(d)) => r.fail(what, d), Ok(None) => {} }
+        }
+    }
+    r.done()
+}
+
 fn main() {
     let args: Vec<String> = std::env::args().skip(1).collect();
     let deep = args.iter().any(|a| a == "--deep");
@@ -408,6 +454,7 @@ fn main() {
             "reader" => oracle_reader(if deep { 3 } else { 2 }),
             "schedule" => oracle_schedule(),
             "transfer" => oracle_transfer(),
+            "handles" => oracle_handles(),
             "hostile" => oracle_hostile(),
             other => { println!("UNKNOWN {}", other); false }
         };
